@@ -656,4 +656,74 @@ theorem extract_om_ne_none (excl : Bool) (tracks : List Track) : extract excl tr
     simp at this
   · simp
 
+/-! ## `_exponential_mle_optimize`: boolean-mask assignment and selection -/
+
+theorem scatter_length {β : Type} : ∀ (ps : List β) (fs : List Bool) (xs : List β),
+    (scatter ps fs xs).length = ps.length
+  | [], _, _ => by simp [scatter]
+  | _ :: _, [], _ => by simp [scatter]
+  | p :: ps, false :: fs, xs => by simp [scatter, scatter_length ps fs xs]
+  | p :: ps, true :: fs, [] => by simp [scatter, scatter_length ps fs []]
+  | _ :: ps, true :: fs, x :: xs => by simp [scatter, scatter_length ps fs xs]
+
+/-- selection after assignment gives back what was assigned: the optimiser's answer sits in the fitted slots -/
+theorem gather_scatter {β : Type} : ∀ (ps : List β) (fs : List Bool) (xs : List β),
+    fs.length = ps.length → xs.length = fs.count true → gather (scatter ps fs xs) fs = xs
+  | [], [], xs, _, hx => by
+    have : xs = [] := List.length_eq_zero_iff.1 (by simpa using hx)
+    simp [scatter, gather, this]
+  | [], _ :: _, _, hl, _ => by simp at hl
+  | _ :: _, [], _, hl, _ => by simp at hl
+  | p :: ps, false :: fs, xs, hl, hx => by
+    simp only [scatter, gather]
+    exact gather_scatter ps fs xs (by simpa using hl) (by simpa using hx)
+  | p :: ps, true :: fs, [], _, hx => by simp at hx
+  | _ :: ps, true :: fs, x :: xs, hl, hx => by
+    simp only [scatter, gather, List.cons.injEq, true_and]
+    exact gather_scatter ps fs xs (by simpa using hl) (by simpa using hx)
+
+/-- assignment of the selection changes nothing: the start vector handed to the optimiser reproduces the initial guess -/
+theorem scatter_gather {β : Type} : ∀ (ps : List β) (fs : List Bool), scatter ps fs (gather ps fs) = ps
+  | [], _ => by simp [scatter]
+  | _ :: _, [] => by simp [scatter]
+  | p :: ps, false :: fs => by simp [scatter, gather, scatter_gather ps fs]
+  | p :: ps, true :: fs => by simp [scatter, gather, scatter_gather ps fs]
+
+/-- a parameter that is not fitted keeps its value whatever the optimiser answers -/
+theorem scatter_fixed {β : Type} : ∀ (ps : List β) (fs : List Bool) (xs : List β) (i : Nat),
+    fs.getD i false = false → (scatter ps fs xs)[i]? = ps[i]?
+  | [], _, _, _, _ => by simp [scatter]
+  | _ :: _, [], _, _, _ => by simp [scatter]
+  | p :: ps, false :: fs, xs, 0, _ => by simp [scatter]
+  | p :: ps, false :: fs, xs, i + 1, h => by
+    simp only [scatter, List.getElem?_cons_succ]
+    exact scatter_fixed ps fs xs i (by simpa using h)
+  | p :: ps, true :: fs, [], 0, h => by simp at h
+  | p :: ps, true :: fs, [], i + 1, h => by
+    simp only [scatter, List.getElem?_cons_succ]
+    exact scatter_fixed ps fs [] i (by simpa using h)
+  | _ :: ps, true :: fs, x :: xs, 0, h => by simp at h
+  | _ :: ps, true :: fs, x :: xs, i + 1, h => by
+    simp only [scatter, List.getElem?_cons_succ]
+    exact scatter_fixed ps fs xs i (by simpa using h)
+
+theorem take_scatter_of_countTrue_zero : ∀ (n : Nat) (ps : List Rat) (fs : List Bool) (xs : List Rat),
+    countTrue n fs = 0 → (scatter ps fs xs).take n = ps.take n
+  | 0, _, _, _, _ => by simp
+  | _ + 1, [], _, _, _ => by simp [scatter]
+  | _ + 1, _ :: _, [], _, _ => by simp [scatter]
+  | n + 1, p :: ps, false :: fs, xs, h => by
+    simp only [scatter, List.take_succ_cons, List.cons.injEq, true_and]
+    exact take_scatter_of_countTrue_zero n ps fs xs (by simpa [countTrue] using h)
+  | n + 1, p :: ps, true :: fs, xs, h => by simp [countTrue] at h
+
+theorem fixFree_length : ∀ (n : Nat) (ps : List Rat) (fs : List Bool) (v : Rat),
+    (fixFree n ps fs v).1.length = ps.length ∧ (fixFree n ps fs v).2.length = fs.length
+  | 0, _, _, _ => by simp [fixFree]
+  | _ + 1, [], _, _ => by simp [fixFree]
+  | _ + 1, _ :: _, [], _ => by simp [fixFree]
+  | n + 1, p :: ps, f :: fs, v => by
+    obtain ⟨h1, h2⟩ := fixFree_length n ps fs v
+    cases f <;> simp [fixFree, h1, h2]
+
 end Verif.C15
